@@ -10,7 +10,7 @@ from ..checklib import Check, MachineryError, overlap_kind
 SHAPES = ["seq", "flat", "nest", "dict", "call", "pos"]
 # (TStride of the model-checking run, TStride / Stride / keep_every of the emission) per tier
 SIZES = {
-    "quick": {"seq": (16, 40, 4, 1), "flat": (1, 2, 3, 2), "nest": (4, 10, 3, 3), "dict": (16, 60, 3, 2), "call": (8, 10, 3, 2), "pos": (1, 1, 1, 1), "inner": (8, 12, 3, 4)},
+    "quick": {"seq": (16, 40, 4, 1), "flat": (1, 2, 3, 4), "nest": (4, 10, 3, 3), "dict": (16, 60, 3, 2), "call": (8, 10, 3, 2), "pos": (1, 1, 1, 1), "inner": (8, 12, 3, 4)},
     "thorough": {"seq": (1, 4, 2, 1), "flat": (1, 1, 1, 1), "nest": (1, 2, 1, 1), "dict": (1, 8, 2, 1), "call": (1, 2, 1, 1), "pos": (1, 1, 1, 1), "inner": (1, 4, 2, 2)},
 }
 INVS = {"C02": ["C02"], "C10": ["C10"], "C11": ["C11"], "C05": ["C05"], "C08": ["C08"], "C09": ["C09"],
